@@ -95,15 +95,18 @@ package table
 // ---- text rendering: rune counting with the ghost output counter outlen() -------------------------
 //
 //@ func writeString
-//@   ensures result == nil ==> outlen() == old(outlen()) + runes(s)
+//@   ensures outok() ==> outlen() == old(outlen()) + runes(s)
+//@   ensures result != nil ==> !outok()
 //
 //@ func writeStrings
-//@   ensures result == nil ==> outlen() == old(outlen()) + (l > 0 ? l : 0) * runes(s)
-//@   loop 1 invariant 0 <= i && (l > 0 ==> i <= l) && outlen() == old(outlen()) + i * runes(s)
+//@   ensures outok() ==> outlen() == old(outlen()) + (l > 0 ? l : 0) * runes(s)
+//@   ensures result != nil ==> !outok()
+//@   loop 1 invariant 0 <= i && (l > 0 ==> i <= l) && (outok() ==> outlen() == old(outlen()) + i * runes(s))
 //@   loop 1 decreases l - i
 //
 //@ func writeSpace
-//@   ensures result == nil ==> outlen() == old(outlen()) + (l > 0 ? l : 0)
+//@   ensures outok() ==> outlen() == old(outlen()) + (l > 0 ? l : 0)
+//@   ensures result != nil ==> !outok()
 //
 // numToString is trusted to be a function of the renderer settings and the number (its text is
 // validated against an independent formatter by the stand-in 'numfmt').
@@ -124,4 +127,45 @@ package table
 // renderCell writes exactly l runes when l is at least the minimal length of the cell: zero amounts
 // are blank (l spaces), other amounts are the formatted number right-aligned in l runes.
 //@ func (*TextRenderer).renderCell
-//@   ensures plainCell(c) && l >= minLen(r, c) && result == nil ==> outlen() == old(outlen()) + l
+//@   ensures plainCell(c) && l >= minLen(r, c) && outok() ==> outlen() == old(outlen()) + l
+//
+// TextRenderer.Render: for a rectangular table of plain cells every rendered line has the same number
+// of runes, end[n-1], where start[0] = 2, end[j] = start[j] + widths[j] + 3, start[j+1] = end[j] are
+// the column positions (ghost arrays): the separators of all lines are vertically aligned.
+// ls[k] / le[k] = value of the output counter at the start / end of line k.
+//@ def rect(t *Table) bool := t != nil && len(t.columns) >= 1
+//@     && (forall k int :: {t.rows[k]} 0 <= k && k < len(t.rows) ==> t.rows[k] != nil && len(t.rows[k].cells) == len(t.columns))
+//@     && (forall k int, j int :: {t.rows[k].cells[j]} 0 <= k && k < len(t.rows) && 0 <= j && j < len(t.columns) ==> plainCell(t.rows[k].cells[j]))
+//
+//@ func (*TextRenderer).Render
+//@   requires rect(t)
+//@   modifies r.table, globals
+//@   ghost start []int = 0
+//@   ghost end []int = 0
+//@   ghost ls []int = 0
+//@   ghost le []int = 0
+//@   loop 4 ghost start := ($i == 0 ? upd(start, 0, 2) : start)
+//@   loop 4 ghost-end end := upd(end, $i - 1, start[$i - 1] + widths[$i - 1] + 3)
+//@   loop 4 ghost-end start := upd(start, $i, end[$i - 1])
+//@   loop 5 ghost ls := upd(ls, $i, outlen())
+//@   loop 5 ghost-end le := upd(le, $i - 1, outlen())
+//@   ensures @samewidth: result == nil && outok() ==> (forall k int :: {le[k]} 0 <= k && k < len(t.rows) ==> le[k] - ls[k] == end[len(t.columns) - 1])
+//@   loop 1 invariant r.table == t && fresh(widths) && len(widths) == len(t.columns) && 0 <= $i && $i <= len(t.rows)
+//@   loop 1 invariant forall j int :: {widths[j]} 0 <= j && j < len(widths) ==> widths[j] >= 0
+//@   loop 1 invariant forall k int, j int :: {t.rows[k].cells[j]} 0 <= k && k < $i && 0 <= j && j < len(t.columns) ==> widths[j] >= minLen(r, t.rows[k].cells[j])
+//@   loop 2 invariant r.table == t && fresh(widths) && len(widths) == len(t.columns) && 0 <= $i && $i <= len(t.columns) && row == t.rows[$i1] && 0 <= $i1 && $i1 < len(t.rows)
+//@   loop 2 invariant forall j int :: {widths[j]} 0 <= j && j < len(widths) ==> widths[j] >= 0 && widths[j] >= entry(widths[j])
+//@   loop 2 invariant forall j int :: {row.cells[j]} 0 <= j && j < $i ==> widths[j] >= minLen(r, row.cells[j])
+//@   loop 3 invariant r.table == t && fresh(widths) && len(widths) == len(t.columns) && fresh(groups) && groups != nil
+//@   loop 3 invariant forall k int, j int :: {t.rows[k].cells[j]} 0 <= k && k < len(t.rows) && 0 <= j && j < len(t.columns) ==> widths[j] >= minLen(r, t.rows[k].cells[j])
+//@   loop 4 invariant r.table == t && fresh(widths) && len(widths) == len(t.columns) && 0 <= $i && $i <= len(widths)
+//@   loop 4 invariant forall j int :: {widths[j]} 0 <= j && j < len(widths) ==> widths[j] >= entry(widths[j])
+//@   loop 4 invariant forall k int, j int :: {t.rows[k].cells[j]} 0 <= k && k < len(t.rows) && 0 <= j && j < len(t.columns) ==> widths[j] >= minLen(r, t.rows[k].cells[j])
+//@   loop 4 invariant $i > 0 ==> start[0] == 2
+//@   loop 4 invariant forall j int :: {end[j]} 0 <= j && j < $i ==> end[j] == start[j] + widths[j] + 3 && start[j + 1] == end[j]
+//@   loop 5 invariant r.table == t && fresh(widths) && len(widths) == len(t.columns) && 0 <= $i && $i <= len(t.rows)
+//@   loop 5 invariant forall k int, j int :: {t.rows[k].cells[j]} 0 <= k && k < len(t.rows) && 0 <= j && j < len(t.columns) ==> widths[j] >= minLen(r, t.rows[k].cells[j])
+//@   loop 5 invariant outok() ==> (forall k int :: {le[k]} 0 <= k && k < $i ==> le[k] - ls[k] == end[len(t.columns) - 1])
+//@   loop 6 invariant r.table == t && fresh(widths) && len(widths) == len(t.columns) && 0 <= $i && $i <= len(t.columns) && row == t.rows[$i5] && 0 <= $i5 && $i5 < len(t.rows)
+//@   loop 6 invariant forall k int, j int :: {t.rows[k].cells[j]} 0 <= k && k < len(t.rows) && 0 <= j && j < len(t.columns) ==> widths[j] >= minLen(r, t.rows[k].cells[j])
+//@   loop 6 invariant outok() ==> outlen() - ls[$i5] == ($i == 0 ? 2 : ($i < len(t.columns) ? end[$i - 1] : end[len(t.columns) - 1] - 3))
